@@ -51,4 +51,6 @@ def init_configs():
 
 
 def contracts():
-    return [solvers.step_contract(c) for c in configs("thorough")] + [solvers.init_contract(c, w) for c, w in init_configs()]
+    from contracts import priors
+
+    return [solvers.step_contract(c) for c in configs("thorough")] + [solvers.init_contract(c, w) for c, w in init_configs()] + priors.init_contracts()
